@@ -28,7 +28,11 @@ struct Ctl {
     g: Mutex<Gate>,
     cv: Condvar,
     log: Arc<Log>,
+    /// worker hook events recorded in this case (a worker that spins on a descriptor that stays readable would fill the log)
+    nworker: std::sync::atomic::AtomicUsize,
 }
+/// worker hook events kept per case; further ones are dropped (the count is reported in the `end` event)
+const WORKER_HOOK_CAP: usize = 4000;
 
 const W_HOLDS: [&str; 3] = ["w.after_wait", "w.after_read", "w.before_dispatch"];
 const C_HOLDS: [&str; 4] = ["c.after_setkick", "c.after_state", "c.after_ctl", "c.after_dropkick"];
@@ -39,7 +43,14 @@ impl Ctl {
             return;
         }
         // events of the barrier listener only (no ring event) are not part of the schedule
-        self.log.push(json!({"ev": "hook", "p": point, "a": args}));
+        if point.starts_with("w.") && self.nworker.fetch_add(1, std::sync::atomic::Ordering::SeqCst) >= WORKER_HOOK_CAP {
+            // a spinning worker: keep it from starving everything else of the CPU and the log of memory
+            if W_HOLDS.contains(&point) {
+                std::thread::sleep(Duration::from_micros(200));
+            }
+        } else {
+            self.log.push(json!({"ev": "hook", "p": point, "a": args}));
+        }
         let is_w = W_HOLDS.contains(&point);
         let is_c = C_HOLDS.contains(&point);
         if !is_w && !is_c {
@@ -121,6 +132,7 @@ pub fn run_case<V: VringT<GM> + Clone + Send + Sync + 'static>(case: &Value, tra
         g: Mutex::new(Gate::default()),
         cv: Condvar::new(),
         log: rig.log.clone(),
+        nworker: std::sync::atomic::AtomicUsize::new(0),
     });
     let c2 = ctl.clone();
     vhost::verif::set_controller(Some(Arc::new(move |p: &'static str, a: &[u64]| c2.hit(p, a))));
@@ -154,7 +166,8 @@ pub fn run_case<V: VringT<GM> + Clone + Send + Sync + 'static>(case: &Value, tra
             rig.log.push(json!({"ev": "reply", "op": op, "ok": okv}));
         }
     };
-    for cmd in case["sched"].as_array().unwrap() {
+    let wfree: Vec<bool> = case["wfree"].as_array().map(|a| a.iter().map(|x| x.as_bool().unwrap_or(false)).collect()).unwrap_or_default();
+    for (ci, cmd) in case["sched"].as_array().unwrap().iter().enumerate() {
         let c = cmd.as_str().unwrap();
         match c {
             "k" => {
@@ -193,6 +206,18 @@ pub fn run_case<V: VringT<GM> + Clone + Send + Sync + 'static>(case: &Value, tra
             }
         }
         ctl.settle(quiet);
+        // the model's worker sleeps and nothing could wake it, yet the real one stands at a hold point: let it run on (bounded)
+        if wfree.get(ci).copied().unwrap_or(false) {
+            let mut n = 0;
+            while n < 8 && ctl.g.lock().unwrap().held_w.is_some() {
+                if n == 0 {
+                    rig.log.push(json!({"ev": "unexpected_wake", "after": c}));
+                }
+                let _ = ctl.step('w', Duration::from_millis(1));
+                ctl.settle(quiet);
+                n += 1;
+            }
+        }
         poll_acks(&mut pending, &rig);
     }
     // run everything to completion
@@ -255,7 +280,7 @@ pub fn run_case<V: VringT<GM> + Clone + Send + Sync + 'static>(case: &Value, tra
     let counter = kicks.last().map(|k| k.read().unwrap_or(0)).unwrap_or(0);
     let active = last_snapshot["ready"].as_bool().unwrap_or(false) && last_snapshot["enabled"].as_bool().unwrap_or(false);
     trace.emit(json!({"ev": "end", "worker_alive": alive && workers_ok, "final_active": active, "final_has_kick": last_snapshot["has_kick"].as_bool().unwrap_or(false),
-        "final_counter": counter, "unanswered": pending.len()}));
+        "final_counter": counter, "unanswered": pending.len(), "worker_hooks": ctl.nworker.load(std::sync::atomic::Ordering::SeqCst)}));
     vhost::verif::set_controller(None);
     let _ = rig.finish();
 }
